@@ -193,3 +193,187 @@ def r4(ctx, R):
     fn = repo.func(FIO, 'Rectilinear.toVTR')
     loops = [ast.unparse(l.iter) for l in walk_no_nested(fn) if isinstance(l, ast.For) and 'nFields' in ast.unparse(l.iter)]
     R.check(loops == ['range(self.nFields)'], 'Rectilinear.toVTR :: iterates over complete records only', f'{FIO}:Rectilinear.toVTR', ['range(self.nFields)'], loops)
+
+
+@rule('C16', 'C16.R5', 'appends start at a record boundary: addField truncates (or refuses) an incomplete trailing record before it appends', floor=2)
+def r5(ctx, R):
+    """`ab` always writes at the end of the file.  If a previous append was cut off, the end of the file is NOT a record
+    boundary: every later record is misaligned and read back as garbage.  Necessary condition: before the append, addField
+    brings the file to hSize + nFields*(tSize+fSize) bytes (truncate) or raises when (fileSize - hSize) % record size != 0."""
+    repo = ctx.repo
+    fn = repo.func(FIO, 'FieldsIO.addField')
+    w = f'{FIO}:FieldsIO.addField'
+    R.fn(w)
+    cfg = FuncCFG(fn)
+    op = [n for n, s in cfg.stmt_of.items() if isinstance(s, ast.With) and any(m == 'ab' for _, m in _opens(s.items[0].context_expr))]
+    if len(op) != 1:
+        raise AnalysisError(f'{w}: the appending open was not found')
+    tr = [n for n in cfg.stmt_of for c in cfg.calls_at(n) if ast.unparse(c.func) in ('os.truncate',) and len(c.args) == 2 and ast.unparse(c.args[0]) == 'self.fileName']
+    ok = False
+    found = 'no alignment step: appends after an interrupted append are misaligned'
+    if len(tr) == 1:
+        call = [c for c in cfg.calls_at(tr[0]) if ast.unparse(c.func) == 'os.truncate'][0]
+        N = Normalizer(fn)
+        size = N.canon(call.args[1])
+        g = facts.guard_strings(cfg, cfg.stmt_of[tr[0]])
+        ok = size == 'self.hSize + self.nFields * (self.tSize + self.fSize)' and cfg.reachable(tr[0], op[0]) and not cfg.reachable(op[0], tr[0]) and (not g or 'fileSize' in g[-1])
+        found = f'os.truncate(self.fileName, {size}) if {g}'
+    else:
+        rs = [s for s in cfg.stmt_of.values() if isinstance(s, (ast.Raise, ast.Assert)) and '%' in ast.unparse(s) and 'fileSize' in ast.unparse(s)]
+        ok = bool(rs)
+    R.check(ok, 'FieldsIO.addField :: file brought to a record boundary before appending', w, 'os.truncate(fileName, hSize + nFields*(tSize+fSize)) (or a raising alignment test) before open(.., "ab")', found)
+    # parallel path
+    fn = repo.func(FIO, 'Rectilinear.addField')
+    w = f'{FIO}:Rectilinear.addField'
+    R.fn(w)
+    src = ast.unparse(fn)
+    off = [s for s in walk_no_nested(fn) if isinstance(s, ast.Assign) and ast.unparse(s.targets[0]) == 'offset']
+    aligned = any('nFields' in ast.unparse(s.value) for s in off) or 'truncate' in src or 'Set_size' in src
+    R.check(aligned, 'Rectilinear.addField (MPI path) :: write offset is a record boundary', w, 'offset = hSize + nFields*(tSize+fSize) (or the file is truncated to it)', [ast.unparse(s) for s in off])
+
+
+def _sym_blocks(fn):
+    """symbolic case analysis of BlockDecomposition.localBounds: returns (ok, detail).  No value is ever computed: the
+    comparisons of `rank` with `nRest` are replaced by 0/1 in each of the three orderings rank+1 < nRest, rank+1 == nRest,
+    rank >= nRest, and the resulting polynomials are normalised with sympy.expand."""
+    import sympy as sp
+
+    loops = [l for l in walk_no_nested(fn) if isinstance(l, ast.For)]
+    if len(loops) != 1 or not isinstance(loops[0].target, ast.Tuple):
+        raise AnalysisError('localBounds: the loop over (rank, nPoints, nBlocks) was not found')
+    names = [e.id for e in loops[0].target.elts]
+    its = [ast.unparse(a) for a in loops[0].iter.args] if isinstance(loops[0].iter, ast.Call) else []
+    if names != ['rank', 'nPoints', 'nBlocks'] or its[:3] != ['self.ranks', 'self.gridSizes', 'self.nBlocks']:
+        raise AnalysisError(f'localBounds: loop header not recognised: {names} in zip({its})')
+    defs = {}
+    for s in loops[0].body:
+        if isinstance(s, ast.Assign) and isinstance(s.targets[0], ast.Name):
+            defs[s.targets[0].id] = s.value
+    for need in ('n0', 'nRest', 'nLoc', 'iLoc'):
+        if need not in defs:
+            raise AnalysisError(f'localBounds: definition of {need} not found')
+    if ast.unparse(defs['n0']) != 'nPoints // nBlocks':
+        return False, f"n0 = {ast.unparse(defs['n0'])} (expected nPoints // nBlocks)"
+    r, q, Rr, P, B = sp.symbols('rank n0 nRest nPoints nBlocks', integer=True)
+    sym = {'rank': r, 'n0': q, 'nRest': Rr, 'nPoints': P, 'nBlocks': B}
+
+    def conv(node, shift, case):
+        """ast -> sympy with rank := rank + shift; comparisons decided by the case"""
+        if isinstance(node, ast.Constant) and isinstance(node.value, (int, bool)):
+            return sp.Integer(int(node.value))
+        if isinstance(node, ast.Name):
+            if node.id == 'rank':
+                return r + shift
+            if node.id in sym:
+                return sym[node.id]
+            raise AnalysisError(f'localBounds: unknown name {node.id}')
+        if isinstance(node, ast.BinOp):
+            a, b = conv(node.left, shift, case), conv(node.right, shift, case)
+            if isinstance(node.op, ast.Add):
+                return a + b
+            if isinstance(node.op, ast.Sub):
+                return a - b
+            if isinstance(node.op, ast.Mult):
+                return a * b
+            raise AnalysisError(f'localBounds: operator {type(node.op).__name__} not supported')
+        if isinstance(node, ast.UnaryOp) and isinstance(node.op, ast.USub):
+            return -conv(node.operand, shift, case)
+        if isinstance(node, ast.Compare) and len(node.ops) == 1:
+            d = sp.expand(conv(node.left, shift, case) - conv(node.comparators[0], shift, case))
+            t = sp.expand(d - (r - Rr))  # d = (rank - nRest) + c
+            if not t.is_Integer:
+                raise AnalysisError(f'localBounds: comparison {ast.unparse(node)} is not between rank and nRest')
+            c = int(t)
+            lo, hi = {'A': (None, c - 2), 'B': (c - 1, c - 1), 'C': (c, None)}[case]  # range of d in the case
+            op = type(node.ops[0])
+            def holds(pred_lo, pred_hi):
+                # d in [lo, hi]; predicate true on [pred_lo, pred_hi]
+                inside = (pred_lo is None or (lo is not None and lo >= pred_lo)) and (pred_hi is None or (hi is not None and hi <= pred_hi))
+                outside = (pred_hi is not None and lo is not None and lo > pred_hi) or (pred_lo is not None and hi is not None and hi < pred_lo)
+                if inside:
+                    return sp.Integer(1)
+                if outside:
+                    return sp.Integer(0)
+                raise AnalysisError(f'localBounds: {ast.unparse(node)} is not decided by the ordering of rank and nRest')
+            if op is ast.Lt:
+                return holds(None, -1)
+            if op is ast.LtE:
+                return holds(None, 0)
+            if op is ast.Gt:
+                return holds(1, None)
+            if op is ast.GtE:
+                return holds(0, None)
+            raise AnalysisError(f'localBounds: comparison operator in {ast.unparse(node)} not supported')
+        raise AnalysisError(f'localBounds: cannot read {ast.unparse(node)}')
+
+    detail = []
+    ok = True
+    for case, subst in (('A', {}), ('B', {r: Rr - 1}), ('C', {})):
+        # in case A (rank+1 < nRest) both rank and rank+1 are below nRest; B: rank = nRest-1; C: rank >= nRest
+        case_next = {'A': 'A', 'B': 'C', 'C': 'C'}[case]
+        # evaluate at rank (ordering `case`) and rank+1 (ordering of rank+1 relative to nRest)
+        i0 = conv(defs['iLoc'], 0, case)
+        # for rank+1 the comparisons see d+1: emulate by shifting and keeping the case of `rank`
+        i1 = conv(defs['iLoc'], 1, case)
+        n_ = conv(defs['nLoc'], 0, case)
+        diff = sp.expand((i1 - i0 - n_).subs(subst))
+        detail.append(f'{case}: iLoc(r+1)-iLoc(r)-nLoc(r) = {diff}')
+        ok &= diff == 0
+    # first block starts at 0: rank = 0, orderings nRest > 0 (case A or B) and nRest == 0 (case C)
+    for case, subst in (('A', {r: 0}), ('C', {r: 0, Rr: 0})):
+        v = sp.expand(conv(defs['iLoc'], 0, case).subs(subst))
+        detail.append(f'iLoc(0) [{case}] = {v}')
+        ok &= v == 0
+    # sizes add up: sum_r nLoc = nBlocks*n0 + nRest must equal nPoints by the definition of nRest
+    nrest = sp.expand(conv(defs['nRest'], 0, 'C'))
+    tot = sp.expand(B * q + nrest - P)
+    detail.append(f'nBlocks*n0 + nRest - nPoints = {tot}')
+    ok &= tot == 0
+    # nLoc is n0 + [rank < nRest]
+    for case, want in (('A', q + 1), ('B', q + 1), ('C', q)):
+        v = sp.expand(conv(defs['nLoc'], 0, case))
+        ok &= sp.expand(v - want) == 0
+        detail.append(f'nLoc [{case}] = {v}')
+    return ok, detail
+
+
+@rule('C16', 'C16.R6', 'block decomposition tiles each direction: iLoc(0) = 0, iLoc(r+1) = iLoc(r) + nLoc(r) in every ordering of rank and nRest, sizes add up to nPoints (symbolic case analysis)', floor=1)
+def r6(ctx, R):
+    repo = ctx.repo
+    rel = 'pySDC/helpers/blocks.py'
+    fn = repo.func(rel, 'BlockDecomposition.localBounds')
+    w = f'{rel}:BlockDecomposition.localBounds'
+    R.fn(w)
+    ok, detail = _sym_blocks(fn)
+    R.check(ok, 'BlockDecomposition.localBounds :: consecutive blocks are adjacent, the first starts at 0, the sizes sum to nPoints', w, 'all identities reduce to 0 in the three orderings', detail)
+
+
+@rule('C16', 'C16.R7', 'readers are built from the file on every use: no FieldsIO reader is cached across calls (a re-created file would be decoded with a stale header)', floor=2)
+def r7(ctx, R):
+    repo = ctx.repo
+    ci = repo.cls(LOG, 'LogToFile')
+    fn = ci.methods.get('load')
+    if fn is None:
+        raise AnalysisError('LogToFile.load vanished')
+    w = f'{LOG}:LogToFile.load'
+    R.fn(w)
+    cfg = FuncCFG(fn)
+    rd = [(n, c) for n in cfg.stmt_of for c in cfg.calls_at(n) if isinstance(c.func, ast.Attribute) and c.func.attr in ('readField', 'times', 'time')]
+    ok = bool(rd)
+    detail = []
+    for n, c in rd:
+        recv = ast.unparse(c.func.value)
+        d = [m_ for m_, s in cfg.stmt_of.items() if isinstance(s, ast.Assign) and ast.unparse(s.targets[0]) == recv]
+        fresh = len(d) == 1 and ast.unparse(cfg.stmt_of[d[0]].value) == 'FieldsIO.fromFile(cls.filename)' and cfg.dominates(d[0], n) and not facts.guard_strings(cfg, cfg.stmt_of[d[0]])
+        ok &= fresh
+        detail.append(f'{recv} <- ' + (ast.unparse(cfg.stmt_of[d[0]].value) if len(d) == 1 else f'{len(d)} definitions'))
+    R.check(ok, 'LogToFile.load :: the reader is FieldsIO.fromFile(cls.filename) of this very call', w, 'file = FieldsIO.fromFile(cls.filename) unconditionally, then file.readField(..)', detail)
+    # no FieldsIO object is stored in class-level state anywhere in the logging hooks
+    bad = []
+    for name, f in ci.methods.items():
+        for s in ast.walk(f):
+            tg = s.targets if isinstance(s, ast.Assign) else []
+            for t in tg:
+                if isinstance(t, ast.Attribute) and ast.unparse(t.value) in ('cls', 'type(self)', 'LogToFile') and 'FieldsIO' in ast.unparse(s.value):
+                    bad.append(f'{name}: {ast.unparse(s)[:70]}')
+    R.check(not bad, 'LogToFile :: no FieldsIO reader/writer kept in class attributes', f'{LOG}:LogToFile', 'instance attribute self.outfile only', bad)
